@@ -275,6 +275,8 @@ func (s *backendSuite) do(t []string) string {
 		return s.runOp(ctx, s.b, t)
 	case "get", "list", "count", "compact", "parts", "stream":
 		return s.runOp(ctx, s.b, t)
+	case "echo":
+		return strings.Join(t, " ")
 	case "rev":
 		// expected-guided wait: poll until the committed revision equals `want`
 		if w, ok := opts["want"]; ok {
